@@ -109,6 +109,10 @@ type Case struct {
 	// scope "save-over": a sequence of ply.Save calls to one path (saveover.go); SaveFormat = 1 + format index
 	SaveSeq    []int `json:"save_seq,omitempty"`
 	SaveFormat int   `json:"save_format,omitempty"`
+	// scope "dup-names" (dupnames.go): topology, 1 + writer index, 1 + format index
+	DupTopo   string `json:"dup_topo,omitempty"`
+	DupWriter int    `json:"dup_writer,omitempty"`
+	DupFormat int    `json:"dup_format,omitempty"`
 }
 
 // ---------------------------------------------------------------------------------------------
@@ -124,6 +128,14 @@ func attrSalt(name string) int {
 }
 
 var f32Ladder = core.Float32Ladder()
+
+var f64Ladder = func() (o []float64) {
+	for e := -300; e <= 300; e += 12 {
+		p := math.Pow(10, float64(e))
+		o = append(o, 1.2345678901234567*p, -9.87654321*p)
+	}
+	return append(o, math.MaxFloat64, -math.MaxFloat64, math.SmallestNonzeroFloat64, 0, 1)
+}()
 
 var genPattern = []float64{0.1, -0.75, 0.25, 1.0 / 3, 0.7, -0.2}
 
@@ -155,6 +167,12 @@ func Value(class, name string, i, c int) float64 {
 			v = v*1.6 - 0.3
 		}
 		return v
+	}
+	if strings.HasPrefix(class, "dlad:") {
+		// double ladder: powers of ten over the whole double range (both signs) — spelled without an
+		// exponent a value of 1e-290 takes 292 characters
+		k, _ := strconv.Atoi(class[5:])
+		return f64Ladder[(k+4*i+c+11*a)%len(f64Ladder)]
 	}
 	if strings.HasPrefix(class, "lad:") {
 		// value ladder: vertex i, component c of the family "lad:k" is rung k + 4i + c (+ a per-attribute shift)
@@ -913,6 +931,12 @@ func run(c *core.Ctx) {
 	// ---- scope L: size ladder (element counts around every power of two) -------------------------
 	k.ladder(next)
 
+	// ---- scope W: wide records (long ascii lines) ---------------------------------------------------------
+	k.wide(next)
+
+	// ---- scope G: one attribute name in two dimensions ------------------------------------------------
+	k.dupNameCases(next)
+
 	// ---- scope F: ply.Save over an existing file ------------------------------------------------------
 	k.saveSequences(next)
 
@@ -1044,6 +1068,46 @@ func (k checker) ladder(next func() bool) {
 	}
 }
 
+// wide: records far wider than any conventional layout — 40, 200, 400 and 1000 user-named scalars
+// through the default writer, and sixteen double components over the double ladder (a value of
+// 1e-290 takes 292 characters without an exponent) through double-typed property writers: an ascii
+// body line of 4 KB … 100 KB, a binary record of up to 4 KB.
+func (k checker) wide(next func() bool) {
+	shapes := []shape{
+		{"cloud-3", "point", 3, []int{0, 1, 2}},
+		{"two-triangles-welded", "tri", 4, []int{0, 1, 2, 2, 1, 3}},
+	}
+	def := WCfg{Kind: "default", Label: "default(ply.Write)"}
+	for _, n := range []int{40, 200, 400, 1000} {
+		attrs := []AttrCfg{{"Position", 3, "gen"}}
+		for j := 0; j < n; j++ {
+			attrs = append(attrs, AttrCfg{fmt.Sprintf("s%04d", j), 1, "gen"})
+		}
+		for _, sh := range shapes {
+			if next() {
+				k.eval(Case{Scope: "W/wide-records/" + sh.name, Mesh: MeshCfg{Topo: sh.topo, V: sh.v, Idx: sh.idx, Attrs: attrs}, W: def, Readers: n <= 200})
+			}
+		}
+	}
+	dbl := WCfg{Kind: "mw", Unspec: true, Ptr: true, Label: "MeshWriter{Position, Normal, FDC, Scale, Rotation as double, unspecified on}", Props: []WProp{
+		{"Position", 3, "double", []string{"x", "y", "z"}},
+		{"Normal", 3, "double", []string{"nx", "ny", "nz"}},
+		{"FDC", 3, "double", []string{"f_dc_0", "f_dc_1", "f_dc_2"}},
+		{"Scale", 3, "double", []string{"scale_0", "scale_1", "scale_2"}},
+		{"Rotation", 4, "double", []string{"rot_0", "rot_1", "rot_2", "rot_3"}},
+	}}
+	for r := range f64Ladder {
+		val := "dlad:" + strconv.Itoa(r)
+		attrs := []AttrCfg{{"Position", 3, val}, {"Normal", 3, val}, {"FDC", 3, val}, {"Scale", 3, val}, {"Rotation", 4, val}}
+		for _, sh := range shapes {
+			if next() {
+				k.eval(Case{Scope: "W/double-ladder/" + sh.name, Mesh: MeshCfg{Topo: sh.topo, V: sh.v, Idx: sh.idx, Attrs: attrs}, W: dbl, Readers: r%8 == 0})
+			}
+		}
+	}
+	k.c.Bound("W.wide_records", fmt.Sprintf("40, 200, 400, 1000 user scalars (default writer) and 16 double components over %d doubles 1e-300..1e300, MaxFloat64, the smallest subnormal (double-typed writers), on a 3-point cloud and a welded two-triangle mesh, all encodings", len(f64Ladder)))
+}
+
 func (k checker) customTypes(next func() bool) {
 	c := k.c
 	shapes := []shape{
@@ -1173,6 +1237,10 @@ func replay(c *core.Ctx) {
 	}
 	if cs.SaveFormat > 0 {
 		checker{c}.saveOver(cs.SaveSeq, cs.SaveFormat-1)
+		return
+	}
+	if cs.DupWriter > 0 {
+		checker{c}.dupNames(cs.DupTopo, cs.DupWriter-1, cs.DupFormat-1)
 		return
 	}
 	checker{c}.eval(cs)
